@@ -196,4 +196,50 @@ theorem verifyKey_ok_iff (o : Oracle) (k : SigningKey) (input signature : Bytes)
   | ed448 priv pub cs cv => exact ed448_verify_ok_iff o priv pub cs cv input signature
   | none => exact none_verify o input signature
 
+/-! ## a key is a value: no call leaves anything behind
+
+In the model `verifyKey` and `signKey` are functions of (key value, payload, signature) and of the
+oracle only — they take and return no state.  Whatever calls were made before on "the same key",
+accepted, rejected, refused or failed, the outcome of a call is that of the call alone.  (The Go
+`sig.SigningKey` is an object; that goat's objects behave like these values is what the key-object
+history stream of the harness checks.) -/
+
+/-- running any earlier computation `p` (its outcome discarded, as a caller ignoring a previous
+    result) before `q` does not change the outcome of `q` -/
+theorem history_independent {α β : Type} (o : Oracle) (p : PO α) (q : PO β) :
+    (PO.attempt p >>= fun _ => q).run o = q.run o := by
+  simp
+
+/-- … in particular for any list of earlier verifications / signatures on a key -/
+theorem key_history_independent (o : Oracle) (k : SigningKey)
+    (earlier : List (Bytes × Bytes ⊕ Bytes)) (payload signature : Bytes) :
+    (earlier.foldr
+        (fun c (rest : PO Unit) =>
+          match c with
+          | .inl (m, s) => PO.attempt (verifyKey k m s) >>= fun _ => rest
+          | .inr m => PO.attempt (signKey k m) >>= fun _ => rest)
+        (verifyKey k payload signature)).run o = (verifyKey k payload signature).run o := by
+  induction earlier with
+  | nil => rfl
+  | cons c rest ih =>
+    cases c with
+    | inl ms => obtain ⟨m, s⟩ := ms; simp only [List.foldr]; rw [history_independent]; exact ih
+    | inr m => simp only [List.foldr]; rw [history_independent]; exact ih
+
+/-- the same for a signature produced after any history -/
+theorem sign_history_independent (o : Oracle) (k : SigningKey)
+    (earlier : List (Bytes × Bytes ⊕ Bytes)) (payload : Bytes) :
+    (earlier.foldr
+        (fun c (rest : PO Bytes) =>
+          match c with
+          | .inl (m, s) => PO.attempt (verifyKey k m s) >>= fun _ => rest
+          | .inr m => PO.attempt (signKey k m) >>= fun _ => rest)
+        (signKey k payload)).run o = (signKey k payload).run o := by
+  induction earlier with
+  | nil => rfl
+  | cons c rest ih =>
+    cases c with
+    | inl ms => obtain ⟨m, s⟩ := ms; simp only [List.foldr]; rw [history_independent]; exact ih
+    | inr m => simp only [List.foldr]; rw [history_independent]; exact ih
+
 end Model.Sig
